@@ -215,6 +215,7 @@ structure Parsed where
   unhashed : List Bytes
   profileGenerate : Bool
   tooHardPP : Option Bytes
+  extraHash : List Bytes := []     -- `extra_hash_files`: the values of ExtraHashFile / ClangProfileUse arguments, to be joined to the working directory (their *contents* enter the key)
   suppressRio : Bool := false      -- `suppress_rewrite_includes_only` (gcc: `-pedantic…` together with a gnu standard / no `-std`)
 deriving Repr, DecidableEq
 
@@ -249,6 +250,7 @@ structure St where
   serDiag : Option Bytes := none
   tooHardPP : Option Bytes := none
   pedantic : Bool := false
+  extraHash : List Bytes := []
   langExt : Bool := true                  -- `language_extensions`: the last `-std=` value starts with "gnu" (or none given)
 
 def valueOf : Argument → Bytes
@@ -276,8 +278,10 @@ def classifyCore (multiArchOk : Bool) (st : St) (a : Argument) : Except Bytes St
   | some .standard => .ok { st with langExt := (sb "gnu").isPrefixOf (valueOf a), common := st.common ++ strs }
   | some .diagnosticsColor | some .diagnosticsColorFlag
   | some .noDiagnosticsColorFlag | some .passThrough | some .passThroughFlag | some .passThroughPath
-  | some .clangProfileUse | some .extraHashFile =>
+  =>
     .ok { st with common := st.common ++ strs }
+  | some .clangProfileUse | some .extraHashFile =>
+    .ok { st with common := st.common ++ strs, extraHash := st.extraHash ++ [valueOf a] }
   | some .splitDwarf => .ok { st with splitDwarf := true, common := st.common ++ strs }
   | some .profileGenerate => .ok { st with profileGenerate := true, common := st.common ++ strs }
   | some .testCoverage => .ok { st with gcno := true, common := st.common ++ strs }
@@ -335,7 +339,7 @@ def finishWith (st : St) (input : Bytes) (lang : Lang) : Parsed :=
     pre := st.pre,
     common := st.common ++ (if st.splitDwarf then [sb "-D_gsplit_dwarf_path=" ++ withExtension output (sb "dwo")] else []),
     arch := st.arch, unhashed := st.unhashed,
-    profileGenerate := st.profileGenerate || st.gcno, tooHardPP := st.tooHardPP,
+    profileGenerate := st.profileGenerate || st.gcno, tooHardPP := st.tooHardPP, extraHash := st.extraHash,
     suppressRio := st.langExt && st.pedantic }
 
 def resolveLang (plusplus : Bool) (st : St) (input : Bytes) : Option Lang :=
@@ -366,8 +370,9 @@ def classifyX (follows : Bool) (st : St) (a : Argument) : Except Bytes (St × Bo
   | some .coverage | some .doCompilation | some .language | some .output | some .tooHardFlag | some .xClang | some .tooHard =>
     .error ((a.flagStr).getD (sb "Can't handle complex arguments through clang"))
   | some .diagnosticsColor | some .diagnosticsColorFlag | some .noDiagnosticsColorFlag | some .arch | some .passThrough
-  | some .passThroughFlag | some .passThroughPath | some .serializeDiagnostics | some .extraHashFile =>
+  | some .passThroughFlag | some .passThroughPath | some .serializeDiagnostics =>
     .ok ({ st with common := st.common ++ strs }, next)
+  | some .extraHashFile => .ok ({ st with common := st.common ++ strs, extraHash := st.extraHash ++ [valueOf a] }, next)
   | some .unhashed | some .unhashedFlag => .ok ({ st with unhashed := st.unhashed ++ strs }, next)
   | some .preprocessorArgumentFlag | some .preprocessorArgument | some .preprocessorArgumentPath => .ok ({ st with pre := st.pre ++ strs }, next)
   | some .depTarget | some .depArgumentPath | some .needDepTarget => .ok ({ st with dep := st.dep ++ strs }, next)
